@@ -278,7 +278,7 @@ let run_client (noise : bool) (expect : bool) (ka : int) (scr : string) (labels 
   let buf = Stdlib.Buffer.create 256 in
   let parse_cl w = match Stdlib.String.split_on_char ':' w with
     | ["cstart"] -> Client.CStart | ["cfinish"; l] -> Client.CFinish (l = "1") | ["cdisc"] -> Client.CDisconnect false
-    | ["cforce"] -> Client.CDisconnect true | ["ccmd"] -> Client.CCommand [n_of_int 33]
+    | ["cforce"] -> Client.CDisconnect true | ["ccmd"] -> Client.CCommand [n_of_int 33] | "call" :: _ -> Client.CRequest
     | _ -> Client.CConn (parse_label w) in
   let show_cobs = function Client.CO o -> show_obs o | Client.CRaiseAlready -> "XALREADY"
     | Client.CRaiseNotConnected -> "XNC" | Client.CRaiseNotReady -> "XNR" in
